@@ -309,6 +309,11 @@ func archive(workerID string, seed *models.Item) {
 						io.Copy(io.Discard, resp.Body)
 						resp.Body.Close()
 
+						// This response is written to the WARC too: wait for it like for a successful one
+						if feedbackChan != nil {
+							<-feedbackChan
+						}
+
 						time.Sleep(retrySleepTime)
 						continue
 					} else {
@@ -318,6 +323,11 @@ func archive(workerID string, seed *models.Item) {
 						// Consume body, needed to avoid leaking RAM & storage
 						io.Copy(io.Discard, resp.Body)
 						resp.Body.Close()
+
+						// This response is written to the WARC too: wait for it like for a successful one
+						if feedbackChan != nil {
+							<-feedbackChan
+						}
 
 						return
 					}
